@@ -1,6 +1,171 @@
-(* C07 — property theorems (work in progress) *)
-From JV Require Import Lib.Base Model.C07Decl Model.C07Parse.
+(* C07 — property theorems only. Each is closed by `exact` of a lemma proved in Proofs/C07*.v.
 
-Theorem C07_dataclass_is_class_group : forall gk fs, as_dataclass (dashes ++ gk) fs = as_class_group (lstrip_dash (dashes ++ gk)) fs.
-Proof. reflexivity. Qed.
-Print Assumptions C07_dataclass_is_class_group.
+   Vocabulary (Model/C07Decl.v, Model/C07Parse.v):
+     as_dotted / as_dataclass / as_class_group / as_inner_parser : the four declaration styles as compilers from
+        a group key and a field list (name, type, default | none) to the parser's action table;
+     norm fs : the field list as the documented signature rules read it (Optional without default -> default
+        None; default None -> Optional[T]; non-required names starting with "_" are not offered) — the two
+        add_argument styles are declared from norm fs, so that the four declarations describe the same options;
+     run pv jl T inp : what a parser with table T answers for the input inp (environment + argv / object /
+        config string): rejection, exit, or the parsed namespace together with the dumped content; pv and jl are
+        the external loaders (parse_value_or_config, json_or_yaml_load): EVERY statement holds for ANY loaders;
+     finding_class : 0 inside the guard; 1-3 the input addresses the group key itself (argv option / environment
+        variable / string-or-null in a config), 5 hyphenated key with a required option, 6 declaration outside
+        the statement (key with a dot or a leading '-', or nothing left by the signature rules). *)
+From JV Require Import Lib.Base Model.C07Decl Model.C07Parse
+  Proofs.C07TableProofs Proofs.C07ParseProofs Proofs.C07Proofs.
+
+(* The core: for EVERY group key, EVERY field list (any length), ANY loaders and EVERY input mix inside the guard,
+   the four styles give the same accept/reject/exit decision, the same nested values and the same dumped
+   content. *)
+Theorem C07_four_styles_agree :
+  forall (pv jl : str -> val) (gk : str) (fs : list field) (inp : input),
+    finding_class pv gk fs inp = 0%N ->
+    let r := run pv jl (as_dotted gk (norm fs)) inp in
+    run pv jl (as_dataclass (dashes ++ gk) fs) inp = r
+    /\ run pv jl (as_class_group gk fs) inp = r
+    /\ run pv jl (as_inner_parser (dashes ++ gk) (norm fs)) inp = r.
+Proof. exact four_styles_agree. Qed.
+Print Assumptions C07_four_styles_agree.
+
+(* The three grouped styles build ONE AND THE SAME table, hence agree on ALL inputs — whole-group JSON on the
+   command line, the group's environment variable and config strings for the group key included. *)
+Theorem C07_grouped_tables_equal :
+  forall (gk : str) (fs : list field),
+    starts_dash gk = false -> norm fs <> [] -> hyphen_safe gk (norm fs) = true ->
+    as_dataclass (dashes ++ gk) fs = as_class_group gk fs
+    /\ as_inner_parser (dashes ++ gk) (norm fs) = as_class_group gk fs.
+Proof. exact grouped_tables_equal. Qed.
+Print Assumptions C07_grouped_tables_equal.
+
+Theorem C07_grouped_styles_agree_on_all_inputs :
+  forall (pv jl : str -> val) (gk : str) (fs : list field) (inp : input),
+    well_formed gk fs = true -> hyphen_safe gk (norm fs) = true ->
+    run pv jl (as_dataclass (dashes ++ gk) fs) inp = run pv jl (as_class_group gk fs) inp
+    /\ run pv jl (as_inner_parser (dashes ++ gk) (norm fs)) inp = run pv jl (as_class_group gk fs) inp.
+Proof. exact grouped_styles_agree. Qed.
+Print Assumptions C07_grouped_styles_agree_on_all_inputs.
+
+(* Table equivalence => same parse (DESIGN 5.7): ANY table of leaf actions below the key and the same table with
+   the group's _ActionConfigLoad row in front answer every guarded input identically. *)
+Theorem C07_equiv_tables_same_parse :
+  forall (pv jl : str -> val) (gk : str) (T : table) (inp : input),
+    leaf_table gk T -> has_dot gk = false ->
+    argv_names_group gk inp = false -> env_names_group gk inp = false -> config_group_text pv gk inp = false ->
+    run pv jl (with_load gk T) inp = run pv jl T inp.
+Proof. exact equiv_tables_same_parse. Qed.
+Print Assumptions C07_equiv_tables_same_parse.
+
+(* The class-group style is the dotted style on the normal form plus the load row; the signature styles see a
+   field list only through its normal form, which the rules leave alone. *)
+Theorem C07_class_group_table :
+  forall (gk : str) (fs : list field),
+    norm fs <> [] -> as_class_group gk fs = with_load gk (as_dotted gk (norm fs)).
+Proof. exact class_group_table. Qed.
+Print Assumptions C07_class_group_table.
+
+Theorem C07_signature_rules_normal_form :
+  forall (gk : str) (fs : list field),
+    norm fs <> [] -> as_class_group gk fs = as_class_group gk (norm fs) /\ explicit (norm fs) = true.
+Proof. exact class_group_through_norm. Qed.
+Print Assumptions C07_signature_rules_normal_form.
+
+Theorem C07_norm_idempotent : forall fs, norm (norm fs) = norm fs.
+Proof. exact norm_idem. Qed.
+Print Assumptions C07_norm_idempotent.
+
+Theorem C07_explicit_fields_untouched : forall fs, explicit fs = true -> norm fs = fs.
+Proof. exact explicit_norm. Qed.
+Print Assumptions C07_explicit_fields_untouched.
+
+(* ---- the hypotheses are satisfiable by non-trivial inputs ---- *)
+Example C07_guard_satisfiable :
+  finding_class w_pv w_g w_fields w_in_plain = 0%N
+  /\ group_value (run w_pv w_jl (as_dotted w_g (norm w_fields)) w_in_plain) w_g w_a = Some (VInt 2).
+Proof. exact guard_example. Qed.
+
+Example C07_guard_satisfiable_non_explicit :
+  well_formed w_g w_fields_sig = true /\ hyphen_safe w_g (norm w_fields_sig) = true
+  /\ explicit w_fields_sig = false /\ length (norm w_fields_sig) = 2.
+Proof. exact guard_example_norm. Qed.
+
+Example C07_norm_is_needed :
+  exists gk fs, as_class_group gk fs <> with_load gk (as_dotted gk fs)
+                /\ as_class_group gk fs = with_load gk (as_dotted gk (norm fs)).
+Proof. exact signature_rules_are_a_normalisation. Qed.
+
+(* ---- findings: outside the guard the property FAILS on the faithful model (kernel-evaluated witnesses) ---- *)
+(* fields a:int=1, b:str='x' under g; parse_args(['--g={"a": 2}']) *)
+Theorem C07_dotted_whole_group_argv_refuted :
+  exists pv jl gk fs inp,
+    well_formed gk fs = true /\ hyphen_safe gk (norm fs) = true /\ finding_class pv gk fs inp = 1%N
+    /\ is_reject (run pv jl (as_dotted gk (norm fs)) inp) = true
+    /\ group_value (run pv jl (as_class_group gk fs) inp) gk w_a = Some (VInt 2).
+Proof. exact dotted_whole_group_argv_refuted. Qed.
+Print Assumptions C07_dotted_whole_group_argv_refuted.
+
+(* one field a:int=1; parse_args(['--g=5']) is an abbreviation of --g.a for the dotted style only *)
+Theorem C07_dotted_group_abbreviation_refuted :
+  exists pv jl gk fs inp,
+    finding_class pv gk fs inp = 1%N
+    /\ group_value (run pv jl (as_dotted gk (norm fs)) inp) gk w_a = Some (VInt 5)
+    /\ is_reject (run pv jl (as_class_group gk fs) inp) = true.
+Proof. exact dotted_group_abbreviation_refuted. Qed.
+Print Assumptions C07_dotted_group_abbreviation_refuted.
+
+(* environment APP_G='{"a": 2}' *)
+Theorem C07_dotted_whole_group_env_refuted :
+  exists pv jl gk fs inp,
+    finding_class pv gk fs inp = 2%N
+    /\ group_value (run pv jl (as_dotted gk (norm fs)) inp) gk w_a = Some (VInt 1)
+    /\ group_value (run pv jl (as_class_group gk fs) inp) gk w_a = Some (VInt 2).
+Proof. exact dotted_whole_group_env_refuted. Qed.
+Print Assumptions C07_dotted_whole_group_env_refuted.
+
+(* parse_object({'g': '{"a": 2}'}): the dotted style keeps the string AS the group *)
+Theorem C07_dotted_group_key_string_refuted :
+  exists pv jl gk fs inp,
+    finding_class pv gk fs inp = 3%N
+    /\ (exists c d, run pv jl (as_dotted gk (norm fs)) inp = Ok (c, d) /\ lookup gk c = Some (TLeaf (VStr w_json_a2)))
+    /\ group_value (run pv jl (as_class_group gk fs) inp) gk w_a = Some (VInt 2).
+Proof. exact dotted_group_key_string_refuted. Qed.
+Print Assumptions C07_dotted_group_key_string_refuted.
+
+(* parse_object({'g': None}): same result, different dump ('g: null' against '{}') *)
+Theorem C07_dotted_group_key_null_refuted :
+  exists pv jl gk fs inp,
+    finding_class pv gk fs inp = 3%N
+    /\ dumped (run pv jl (as_dotted gk (norm fs)) inp) = Some [(gk, TLeaf VNone)]
+    /\ dumped (run pv jl (as_class_group gk fs) inp) = Some [].
+Proof. exact dotted_group_key_null_refuted. Qed.
+Print Assumptions C07_dotted_group_key_null_refuted.
+
+(* key my-g, fields f:int (required), a:int=1; parse_args(['--my-g.f=2']): rejected by the inner-parser style
+   only; accepted once required_args is prefixed like the dests (the repaired model) *)
+Theorem C07_inner_hyphen_required_refuted :
+  exists pv jl gk fs inp,
+    well_formed gk fs = true /\ finding_class pv gk fs inp = 5%N
+    /\ is_reject (run pv jl (as_inner_parser (dashes ++ gk) (norm fs)) inp) = true
+    /\ group_value (run pv jl (as_class_group gk fs) inp) (gdest gk) w_f = Some (VInt 2)
+    /\ group_value (run pv jl (as_inner_parser_fixed (dashes ++ gk) (norm fs)) inp) (gdest gk) w_f = Some (VInt 2).
+Proof. exact inner_hyphen_required_refuted. Qed.
+Print Assumptions C07_inner_hyphen_required_refuted.
+
+(* ---- the repaired tree (fixes/C07-inner-hyphen-required.patch): class 5 is gone ---- *)
+Theorem C07_four_styles_agree_fixed :
+  forall (pv jl : str -> val) (gk : str) (fs : list field) (inp : input),
+    finding_class_fixed pv gk fs inp = 0%N ->
+    let r := run pv jl (as_dotted gk (norm fs)) inp in
+    run pv jl (as_dataclass (dashes ++ gk) fs) inp = r
+    /\ run pv jl (as_class_group gk fs) inp = r
+    /\ run pv jl (as_inner_parser_fixed (dashes ++ gk) (norm fs)) inp = r.
+Proof. exact four_styles_agree_fixed. Qed.
+Print Assumptions C07_four_styles_agree_fixed.
+
+Theorem C07_grouped_styles_agree_on_all_inputs_fixed :
+  forall (pv jl : str -> val) (gk : str) (fs : list field) (inp : input),
+    well_formed gk fs = true ->
+    run pv jl (as_dataclass (dashes ++ gk) fs) inp = run pv jl (as_class_group gk fs) inp
+    /\ run pv jl (as_inner_parser_fixed (dashes ++ gk) (norm fs)) inp = run pv jl (as_class_group gk fs) inp.
+Proof. exact grouped_styles_agree_fixed. Qed.
+Print Assumptions C07_grouped_styles_agree_on_all_inputs_fixed.
